@@ -1,5 +1,6 @@
 """C20 — Braille highlighting and cursor routing are safe and side-effect free (DESIGN.md §3 C20)."""
 from checks import braille_kernels as bk
+from framework import mcprobe
 
 
 def build(run):
@@ -25,3 +26,88 @@ def build(run):
              role=lambda v, o: "ueb-prefix", claim="i_start_ueb(prefix) <= cells in prefix"),
     ]
     run.kani(c, lemmas)
+    crate_d, lemma_d = restore_lemma(run)
+    run.kani(crate_d, [lemma_d])
+
+
+# ======================================================================================================================
+# K-C20-d: get_navigation_node_from_braille_position is a pure query w.r.t. the highlight preference
+import kani_run as _kr
+import slicer as _sl
+
+RESTORE_SHIM = r'''
+use std::cell::{Cell, RefCell};
+use core::marker::PhantomData;
+pub type Result<T> = core::result::Result<T, ()>;
+macro_rules! bail { ($($t:tt)*) => { return Err(()) }; }
+thread_local! { static HIGHLIGHT_PREF: Cell<u8> = Cell::new(0); static N_PROBES: RefCell<usize> = RefCell::new(0); }
+// the preference store, reduced to the one preference the function touches; both values are 9 bytes long
+fn get_preference(_name: String) -> Result<String> { core::mem::forget(_name); Ok(if HIGHLIGHT_PREF.with(|p| p.get()) == 0 { "FirstChar".to_string() } else { "EndPoints".to_string() }) }
+fn set_preference(_name: String, value: String) -> Result<()> {
+    HIGHLIGHT_PREF.with(|p| p.set(if value.as_bytes()[0] == b'E' { 1 } else { 0 }));
+    core::mem::forget(_name); core::mem::forget(value);
+    Ok(())
+}
+#[derive(Clone, Copy)] pub struct Element<'a> { has_id: bool, p: PhantomData<&'a ()> }
+#[derive(Clone, Copy)] pub struct ChildOfElement<'a>(Element<'a>);
+impl<'a> Element<'a> {
+    fn attribute_value(&self, _name: &str) -> Option<&'a str> { if self.has_id { Some("id-12345") } else { None } }
+    fn children(&self) -> [ChildOfElement<'a>; 1] { [ChildOfElement(*self)] }
+}
+fn as_element<'a>(c: ChildOfElement<'a>) -> Element<'a> { c.0 }
+fn mml_to_string(_e: &Element) -> String { String::new() }
+'''
+
+RESTORE_HARNESS = r'''
+fn node_from_position<'m>(mathml: Element<'m>, position: usize) -> Result<(String, usize)> {
+BODY
+    // the recursive search (braille_mathml on the DOM, rule interpreter): replaced by an arbitrary outcome
+    fn find_navigation_node<'e>(_mathml: Element<'e>, node: Element<'e>, target_position: usize) -> Result<SearchState<'e>> {
+        if sym::bool() || !node.has_id { return Err(()); }      // the real search bails when the node has no id
+        let status = match sym::below(4) { 0 => SearchStatus::LookInParent, 1 => SearchStatus::LookLeft, 2 => SearchStatus::LookRight, _ => SearchStatus::Found };
+        let start = sym::usize();
+        let end = sym::usize();
+        // contract of the search (comment in the source: "at this point, start <= target_position && target_position <= end")
+        if let SearchStatus::Found | SearchStatus::LookInParent = status { sym::assume(start <= target_position && target_position <= end); }
+        Ok(SearchState { status, node, highlight_start: start, highlight_end: end })
+    }
+}
+
+// K-C20-d: whatever the search returns, a successful call leaves the highlight preference as it found it
+HARNESS(braille_position_query_restores_highlight_pref, 12) {
+    let mathml = Element { has_id: sym::bool(), p: PhantomData };
+    let position = sym::usize();
+    HIGHLIGHT_PREF.with(|p| p.set(0));                 // the caller's setting: "FirstChar"
+    let r = node_from_position(mathml, position);      // no panic (position - highlight_start, unwraps)
+    let after = HIGHLIGHT_PREF.with(|p| p.get());
+    cover!(r.is_ok() && after == 0, "successful query reachable");
+    cover!(r.is_err(), "failing search reachable");
+    match r {
+        Ok((id, off)) => { assert!(after == 0, "BrailleNavHighlight is left at EndPoints after a successful query"); assert!(off <= position, "offset larger than the position"); core::mem::forget(id); }
+        Err(_) => { /* observation, not asserted: a failing search (`?`) returns before the preference is restored on the unchanged tree */ }
+    }
+}
+'''
+
+
+def restore_lemma(run):
+    b = _sl.Source.get("src/braille.rs")
+    f = b.find("fn get_navigation_node_from_braille_position")
+    run.uses(f)
+    body = f.body_without_nested_fns().replace("#[derive(Debug, Display)]", "#[derive(Debug)]")
+    crate = _kr.Crate("c20restore", RESTORE_SHIM + RESTORE_HARNESS.replace("BODY", body))
+    run.bound("K-C20-d", "the function's own statements (nested search functions cut out) with an arbitrary search outcome: Ok/Err, any of the 4 SearchStatus values, any start/end, any position; id attribute present or not")
+    run.assume("get_preference/set_preference reduced to a one-cell store for BrailleNavHighlight (values FirstChar/EndPoints); find_navigation_node replaced by an arbitrary outcome satisfying the contract stated in its source comment; Element reduced to what the statements use",
+               "not asserted (observation): when the search itself fails, the unchanged tree returns through `?` with the preference still set to EndPoints")
+
+    def api(vals, out):
+        # role-level recipe: UEB expression long enough for a grade-1 passage; cells 0..2 belong to no node
+        res = mcprobe([("pref", "BrailleCode UEB"), ("pref", "BrailleNavHighlight FirstChar"),
+                       ("mathml", "<math><mi>x</mi><mo>=</mo><mfrac><mrow><mo>-</mo><mi>b</mi><mo>&#xB1;</mo><msqrt><msup><mi>b</mi><mn>2</mn></msup><mo>-</mo><mn>4</mn><mi>a</mi><mi>c</mi></msqrt></mrow><mrow><mn>2</mn><mi>a</mi></mrow></mfrac></math>"),
+                       ("braille", ""), "nodeat 0", ("getpref", "BrailleNavHighlight"), "nodeat 1", ("getpref", "BrailleNavHighlight")])
+        bad = [r for r in res if r[0] != "OK"] or [r for r in (res[5], res[7]) if r[1] != "FirstChar"]
+        return bool(bad), {"script": "UEB, BrailleNavHighlight=FirstChar, quadratic formula, get_navigation_node_from_braille_position(0), get_preference", "results": res[3:]}
+    return crate, dict(id="K-C20-d.query_restores_highlight_pref", harness="braille_position_query_restores_highlight_pref", api=api,
+                       role=lambda v, o: "pref-not-restored" if "left at EndPoints" in o else "panic-or-offset",
+                       covers=["successful query reachable", "failing search reachable"],
+                       claim="Ok exit => BrailleNavHighlight has the value it had before the call; no unwrap / subtraction panic under the search contract")
